@@ -37,6 +37,7 @@ def select_cases(tier, seed, families=("flat", "blocks"), quick_random=30, thoro
         cases += gen.random_flat(rng, n)
     if "blocks" in families:
         cases += gen_blocks.systematic_blocks()
+        cases += gen_blocks.weighted_blocks()
         cases += gen_blocks.random_blocks(rng, n // 2)
     for i, c in enumerate(cases):
         if not c.get("id"):
